@@ -292,7 +292,26 @@ def s_log_disabled(ex, st, call):
       r'^core::fmt::', r'^std::fmt::', r'^alloc::fmt::', r'^format$', r'^std::io::_print$', r'^Path::display$',
       r'^<.* as (Debug|Display)>::fmt$', r'^Formatter::', r'^std::io::_eprint$')
 def s_fmt(ex, st, call):
-    return ex.fresh(st, call.dst_ty, 'fmt')
+    r = ex.fresh(st, call.dst_ty, 'fmt')
+    # formatting has an empty body, but the formatted scalars stay attached (file names are built with format!)
+    vals = []
+
+    def collect(v, depth=0):
+        if depth > 4 or len(vals) > 16:
+            return
+        v = deref(v)
+        if z3.is_expr(v):
+            vals.append(v)
+        elif isinstance(v, Obj):
+            vals.extend(v.data.get('fmt_args', []))
+            if v.kind in ('array', 'tuple') or 'items' in v.data:
+                for c in list(v.fields.values())[:8] + list(v.data.get('items', []))[:8]:
+                    collect(c.val, depth + 1)
+    for a in call.args:
+        collect(a)
+    if vals and isinstance(r, Obj):
+        r.data['fmt_args'] = vals
+    return r
 
 
 @rule(r'^(std::)?panicking$', r'^std::thread::panicking$')
@@ -1347,6 +1366,111 @@ def s_seq_remove(ex, st, call):
         c = its.pop(idx)
     st.emit(Ev('VEC_REMOVE', obj=v, args={'index': idx, 'val': c.val}, site=call.site))
     return c.val
+
+
+def _conc(v):
+    if isinstance(v, int):
+        return v
+    if z3.is_expr(v):
+        v = z3.simplify(v)
+        if z3.is_bv_value(v):
+            return v.as_long()
+    return None
+
+
+@rule(r'^(core|std)::slice::<impl \[.*\]>::(rotate_left|rotate_right|reverse|swap|fill|fill_with|sort|sort_unstable|sort_by|sort_unstable_by|sort_by_key|sort_unstable_by_key|sort_by_cached_key|select_nth_unstable.*)$',
+      r'^Vec::(truncate|clear|retain|retain_mut|dedup|dedup_by|dedup_by_key|insert|split_off|append|resize|resize_with|drain|extend_from_slice|swap_remove)$', prio=-1)
+def s_seq_mutators(ex, st, call):
+    """in-place mutators of slices / vectors whose elements we track: the simple ones are executed, the others make the content unknown
+    (never leave a stale model behind)"""
+    v = deref(call.args[0])
+    its = seq_items(v)
+    if its is None:
+        return NotImplemented
+    kind = call.c0.rsplit('::', 1)[-1]
+    n = _conc(call.args[1]) if len(call.args) > 1 else None
+    if kind == 'reverse':
+        its.reverse(); return ex.unit()
+    if kind == 'clear':
+        del its[:]; return ex.unit()
+    if kind == 'truncate' and n is not None:
+        del its[n:]; return ex.unit()
+    if kind in ('rotate_left', 'rotate_right') and n is not None and n <= len(its):
+        k = n if kind == 'rotate_left' else (len(its) - n)
+        its[:] = its[k:] + its[:k]; return ex.unit()
+    if kind == 'swap' and n is not None and _conc(call.args[2]) is not None and max(n, _conc(call.args[2])) < len(its):
+        j = _conc(call.args[2]); its[n], its[j] = its[j], its[n]; return ex.unit()
+    if kind == 'insert' and n is not None and n <= len(its):
+        its.insert(n, Cell(call.args[2])); return ex.unit()
+    if kind in ('sort', 'sort_unstable', 'sort_by_key', 'sort_unstable_by_key', 'sort_by_cached_key') and len(its) <= 4:
+        return _sort_seq(ex, st, call, v, its, call.args[1] if len(call.args) > 1 else None)
+    # anything else: the element list is no longer known
+    v.data.pop('items', None)
+    v.data['extended_unknown'] = True
+    st.emit(Ev('SEQ_UNKNOWN', obj=v, args={'by': call.c0}, site=call.site))
+    return ex.fresh(st, call.dst_ty, kind)
+
+
+def _sort_key(ex, st, clo, cell):
+    """(descending?, 64-bit key) of one element under the key closure (None if not a scalar / Reverse(scalar))"""
+    if clo is None:
+        k = cell.val
+    else:
+        res = list(ex.call_closure(st, clo, [Ref(cell)]))
+        if len(res) != 1 or res[0][0] is not st or st.status != 'running':
+            return None
+        k = res[0][1]
+    desc = False
+    k = deref(k)
+    if isinstance(k, Obj) and base_name(k.ty) == 'Reverse' and 0 in k.fields:
+        desc = True; k = deref(k.fields[0].val)
+    if isinstance(k, Obj) and k.kind == 'tuple' and 0 in k.fields and len(k.fields) == 1:
+        k = deref(k.fields[0].val)
+    if z3.is_bv(k):
+        return desc, k
+    return None
+
+
+def _sort_seq(ex, st, call, v, its, clo):
+    """sorting <= 4 elements with symbolic scalar keys: one continuation per feasible order"""
+    import itertools
+    if len(its) <= 1:
+        return ex.unit()
+    ks = [_sort_key(ex, st, clo, c) for c in its]
+    if any(k is None for k in ks):
+        v.data.pop('items', None); v.data['extended_unknown'] = True
+        return ex.fresh(st, call.dst_ty, 'sorted')
+    desc = ks[0][0]
+    keys = [k for _d, k in ks]
+    le = (lambda a, b: z3.UGE(a, b)) if desc else (lambda a, b: z3.ULE(a, b))
+    perms = list(itertools.permutations(range(len(its))))
+
+    def cond_of(q):
+        return z3.And([le(keys[q[a]], keys[q[a + 1]]) for a in range(len(q) - 1)]) if len(q) > 1 else z3.BoolVal(True)
+    outs = []
+    cur = st; curv = v
+    for n_, perm in enumerate(perms):
+        cond = cond_of(perm)
+        if not ex.feasible(cur.pc, cond):
+            continue
+        more = any(ex.feasible(cur.pc + [z3.Not(cond)], cond_of(q)) for q in perms[n_ + 1:])
+        if more:
+            h = Obj('', 'h'); h.fields[0] = Cell(curv)
+            cur.globals['__sort'] = h
+            s2, _m = cur.clone()
+            cur.globals.pop('__sort', None)
+            v2 = s2.globals.pop('__sort').fields[0].val
+        else:
+            s2, v2 = cur, curv
+        s2.pc.append(cond)
+        items2 = v2.data['items']
+        v2.data['items'] = [items2[j] for j in perm]
+        s2.emit(Ev('SORT', obj=v2, args={'perm': perm, 'descending': desc}, site=call.site))
+        outs.append((s2, ex.unit()))
+        if not more:
+            break
+        cur.pc.append(z3.Not(cond))
+    return outs
 
 
 @rule(r'^Vec::push$', r'^VecDeque::push_back$')
